@@ -208,11 +208,22 @@ func runC0405(cfg *config, res *monitor.Result) {
 			}
 			nonTrivial := len(bridge.SortedFieldNumbers(c.Msg.ProtoReflect())) > 0
 			// second pass: the same contents held in the "empty but allocated" Go representation
-			for pass := 0; pass < 3; pass++ {
+			for pass := 0; pass < 4; pass++ {
 				emptyNonNil = pass == 1
 				nilElems = pass == 2
 				nilMapValues = nilElems && isC04
+				extInUnknown = pass == 3
 				repTag := ""
+				if extInUnknown {
+					// the message as code that does not know its extensions left it: extension fields encoded in the unknown fields
+					extInUnknownPoked = 0
+					if _, err := build(t, c.Msg); err != nil || extInUnknownPoked == 0 {
+						extInUnknown = false
+						break
+					}
+					repTag = "ext-in-unknown:"
+					classes[t.pkg.Flavour+"/"+string(t.md.Name())+"/ext-in-unknown"]++
+				}
 				if emptyNonNil {
 					if c.Class == "random" && ci%4 != 0 {
 						continue
@@ -223,12 +234,12 @@ func runC0405(cfg *config, res *monitor.Result) {
 					// Google V2 only: golang/protobuf V1 and gogo refuse a nil element ("repeated field has nil element"),
 					// for them it is not a message value at all.
 					if t.pkg.Flavour != "gv2" {
-						break
+						continue
 					}
 					// only for values that really hold an empty element in a repeated message field
 					nilElemsPoked = 0
 					if _, err := build(t, c.Msg); err != nil || nilElemsPoked == 0 {
-						break
+						continue
 					}
 					repTag = "nil-elements:"
 					classes[t.pkg.Flavour+"/"+string(t.md.Name())+"/nil-elements"]++
@@ -313,7 +324,7 @@ func runC0405(cfg *config, res *monitor.Result) {
 					}
 				}
 			}
-			emptyNonNil, nilElems, nilMapValues = false, false, false
+			emptyNonNil, nilElems, nilMapValues, extInUnknown = false, false, false, false
 			if nonTrivial {
 				cls := c.Class
 				if c.Field != "" {
